@@ -48,6 +48,12 @@ def _work(task):
         except Unsupported as u:
             out["unsupported"] = str(u)
             return out
+        except (AttributeError, TypeError, KeyError, IndexError, z3.Z3Exception) as e:
+            # the contract no longer fits the code's shape (e.g. a local has another type now):
+            # a binding failure is undecided, never a violation
+            out["unsupported"] = "contract does not bind to the current code: %s: %s @ %s" % (
+                type(e).__name__, e, traceback.format_exc().strip().splitlines()[-3].strip()[:160])
+            return out
         out["info"] = {"file": info.file, "function": target, "source_sha256": info.sha,
                        "loops": ex.nloops}
         out["n_total"] = len(obs)
